@@ -18,6 +18,7 @@ structure ApiState where
   kind : String := "bolt"
   bolt : Bolt.DB := []
   fs   : FsB.FsS := ⟨[]⟩
+  single : Bytes := []          -- the bucket of a single-bucket fs backend
   ref  : Spec.S3.Store := []
 
 def showRes {α} (r : Res α) (f : α → String) : String :=
@@ -116,10 +117,67 @@ def stepApiFs (st : ApiState) (toks : List String) : Option (ApiState × String 
     some (st, showRes r showListing, refListing st (fromHex b) p)
   | _ => none
 
+/-- the single-bucket file-system backend (Model/FsBackend, `Single`) -/
+def stepApiFsS (st : ApiState) (toks : List String) : Option (ApiState × String × String) :=
+  let md5 := Md5.md5
+  let name := st.single
+  let refused {α} (r : Res α) : Bool := match r with | .err .InvalidArgument => true | _ => false
+  match toks with
+  | ["api.mk", _] => some (st, showRes (FsB.Single.createBucket st.fs).2 fun _ => "ok", "-")
+  | ["api.rm", _] => some (st, showRes (FsB.Single.deleteBucket st.fs).2 fun _ => "ok", "-")
+  | ["api.force", b] =>
+    let (fs, r) := FsB.Single.forceDeleteBucket name st.fs (fromHex b)
+    let isIt := fromHex b == name
+    some ({ st with fs := fs, ref := if isIt then SMap.insert st.ref name [] else st.ref }, showRes r fun _ => "ok", if isIt then "ok" else "err NoSuchBucket")
+  | ["api.exists", b] =>
+    some (st, toString (FsB.Single.bucketExists name (fromHex b)), toString (SMap.find st.ref (fromHex b)).isSome)
+  | ["api.buckets"] =>
+    some (st, "buckets " ++ showKeys (FsB.Single.listBuckets name), "buckets " ++ showKeys (SMap.keys st.ref))
+  | ["api.put", b, k, md, body] =>
+    let (fs, r) := FsB.Single.putObject md5 name st.fs (fromHex b) (fromHex k) (parseMeta md) (fromHex body)
+    if refused r then some ({ st with fs := fs }, showRes r fun _ => "ok", "-") else
+    let (st', sp) := refStep { st with fs := fs } (.put (fromHex b) (fromHex k) (fromHex body))
+    some (st', showRes r fun _ => "ok", sp)
+  | ["api.get", b, k] =>
+    let r := FsB.Single.getObject md5 name st.fs (fromHex b) (fromHex k)
+    let (st', sp) := refStep st (.get (fromHex b) (fromHex k))
+    some (st', showRes r fun o => s!"obj {toHex o.body} {toHex o.hash} meta={showMeta o.md}", sp)
+  | ["api.head", b, k] =>
+    let r := FsB.Single.getObject md5 name st.fs (fromHex b) (fromHex k)
+    let (_, sp) := refStep st (.head (fromHex b) (fromHex k))
+    some (st, showRes r fun o => s!"hobj {o.body.length} {toHex o.hash} meta={showMeta o.md}", if sp.startsWith "obj" then "-" else sp)
+  | ["api.del", b, k] =>
+    let (fs, r) := FsB.Single.deleteObject name st.fs (fromHex b) (fromHex k)
+    if refused r then some ({ st with fs := fs }, showRes r fun _ => "ok", "-") else
+    let (st', sp) := refStep { st with fs := fs } (.delete (fromHex b) (fromHex k))
+    some (st', showRes r fun _ => "ok", sp)
+  | ["api.delmulti", b, ks] =>
+    let (fs, r) := FsB.Single.deleteMulti name st.fs (fromHex b) (parseKeys ks)
+    let (st', sp) := refStep { st with fs := fs } (.deleteMulti (fromHex b) (parseKeys ks))
+    some (st', showRes r fun (d, f) => "deleted " ++ showKeys d ++ (if f.isEmpty then "" else s!" errors={f.length}"), sp)
+  | ["api.copy", sb, sk, db_, dk, md] =>
+    let (fs, r) := FsB.Single.copyObject md5 name st.fs (fromHex sb) (fromHex sk) (fromHex db_) (fromHex dk) (parseMeta md)
+    if refused r then some ({ st with fs := fs }, showRes r fun h => s!"copied {toHex h}", "-") else
+    let dstThere := (SMap.find st.ref (fromHex db_)).isSome
+    let (st', sp) := refStep { st with fs := fs } (.copy (fromHex sb) (fromHex sk) (fromHex db_) (fromHex dk))
+    some (st', showRes r fun h => s!"copied {toHex h}", if dstThere then sp else "-")
+  | ["api.list", b, hasP, pfx, hasD, d] =>
+    let p := parsePrefix hasP pfx hasD d
+    let r : Res ObjectList :=
+      if fromHex b != name then .err .NoSuchBucket else
+      match SMap.find st.fs.buckets name with
+      | none => .err .NoSuchBucket
+      | some bk => .ok (if p.hasDelim && p.delim == 47 then FsB.listDir md5 bk p else FsB.listWalk md5 bk p)
+    some (st, showRes r showListing, refListing st (fromHex b) p)
+  | _ => none
+
 def stepApi (st : ApiState) (toks : List String) : Option (ApiState × String × String) :=
   let md5 := Md5.md5
   if st.kind == "fsM" && toks.head? != some "api.reset" then stepApiFs st toks else
+  if st.kind == "fsS" && toks.head? != some "api.reset" then stepApiFsS st toks else
   match toks with
+  | ["api.reset", "fsS", name] =>
+    some ({ kind := "fsS", single := fromHex name, fs := FsB.Single.init (fromHex name), ref := [(fromHex name, [])] }, "ok", "-")
   | ["api.reset", kind] => some ({ kind := kind }, "ok", "-")
   | ["api.mk", b] =>
     let (db, r) := Bolt.createBucket st.bolt (fromHex b)
